@@ -61,6 +61,26 @@ MANIFEST = dict(
 
 XSI = base.XSI
 MAXLIST = 1500
+ORPHAN = 10**9
+
+
+def guarded(out: Outcome, section: str, rep: dict, fn, *a, **k):
+    """Run one part of the check; if evaluating what the implementation returned blows up (an unexpected
+    type, a missing attribute, ...) that is a finding with a replay, never a crash of the harness."""
+    try:
+        return fn(*a, **k)
+    except common.InfraError:
+        raise
+    except Exception as e:  # noqa: BLE001
+        import traceback
+
+        tb = traceback.extract_tb(e.__traceback__)
+        where = next((f"{fr.name}:{fr.lineno}" for fr in reversed(tb) if fr.filename.endswith("c10.py")), "?")
+        out.find(f"{section}|unexpected-result|{type(e).__name__}",
+                 f"[{rep.get('model')}/{rep.get('state')}] evaluating the result of {section} failed with {type(e).__name__}: "
+                 f"{str(e)[:160]} (at {where}) — the implementation returned something a query must not return",
+                 dict(rep, guard=section))
+        return None
 
 
 # ------------------------------------------------------------------ raw scans (oracle side)
@@ -417,6 +437,7 @@ def check_references(ctx: Ctx, out: Outcome, model, label: str, state: str, keep
             if tcs not in cand_by_cls:
                 cand_by_cls[tcs] = [e for e in semtyped if id(e) in objs and (not tcs or isinstance(objs[id(e)], tcs))]
             expected = []
+            oracle_raised = set()
             for ce in cand_by_cls[tcs]:
                 c = objs[id(ce)]
                 for g in acc.attrs:
@@ -424,8 +445,9 @@ def check_references(ctx: Ctx, out: Outcome, model, label: str, state: str, keep
                         v = g(c)
                     except AttributeError:
                         continue
-                    except Exception:  # noqa: BLE001
+                    except Exception as ex:  # noqa: BLE001  (e.g. a dangling link left behind by an edit: C09's subject)
                         out.hit("backref-attr-raised")
+                        oracle_raised.add(type(ex).__name__)
                         continue
                     hit = (isinstance(v, _obj.ElementList) and any(t_ is ye for t_ in v._elements)) or \
                           (isinstance(v, _obj.ModelElement) and v._element is ye)
@@ -444,6 +466,9 @@ def check_references(ctx: Ctx, out: Outcome, model, label: str, state: str, keep
             if exc:
                 if acc.aslist is None and len(expected) != 1:
                     continue  # single-valued back-reference with 0 or several holders: an error is the documented outcome
+                if exc in oracle_raised:
+                    out.hit("backref-both-raise")
+                    continue  # the scan hits the same broken relation: only AttributeError is skipped by the accessor
                 out.find(f"backref|raises-{exc}", f"[{label}/{state}] {type(y).__name__}.{bname} of {ye.get('id')} raised {exc}; scan finds {len(expected)}", rep)
                 continue
             if set(got) != set(expected):
@@ -629,6 +654,13 @@ def check_filters_on(ctx: Ctx, out: Outcome, lst, label: str, state: str, origin
             except Exception as e:  # noqa: BLE001
                 out.find(f"filter|raises-{type(e).__name__}", f"[{label}/{state}] {by_name}/{ex_name}({v!r}) on {origin} raised {type(e).__name__}: {str(e)[:80]}", rep)
                 continue
+            bad = [(nm, r_) for nm, r_ in ((by_name, by), (ex_name, ex)) if not isinstance(r_, ElementList)]
+            if bad:
+                nm, r_ = bad[0]
+                out.find("filter|result-not-a-list|" + ("single-by-default" if a in ("name", "uuid") else "plain"),
+                         f"[{label}/{state}] {nm}({v!r}{', single=False' if nm == by_name else ''}) on {origin} returned a "
+                         f"{type(r_).__name__} instead of a list", rep)
+                continue
             B, E = list(by._elements), list(ex._elements)
             nontrivial = 0 < len(B) < len(L) or lacking > 0
             out.case((label, state, "filter", common.sha(origin), a, str(v)),
@@ -717,7 +749,6 @@ def check_filters_on(ctx: Ctx, out: Outcome, lst, label: str, state: str, origin
                 out.hit("sub/contains")
             except Exception as e:  # noqa: BLE001
                 out.find(f"list|sub|raises-{type(e).__name__}", f"[{label}/{state}] lst - by raised {type(e).__name__}", rep)
-    del ElementList
 
 
 def atom(v):
@@ -733,12 +764,17 @@ def check_filters(ctx: Ctx, out: Outcome, model, label: str, state: str, fcases:
 
     rng = ctx.rng
     full = model.search()
-    check_filters_on(ctx, out, full, label, state, {"list": "search()"}, fcases)
+
+    def on(lst, origin):
+        guarded(out, "filter", {"kind": "filter-guard", "model": label, "state": state, "origin": origin},
+                check_filters_on, ctx, out, lst, label, state, origin, fcases)
+
+    on(full, {"list": "search()"})
     xts = sorted({e.get(XSI) for e in full._elements if e.get(XSI)})
     for xt in rng.sample(xts, min(len(xts), ctx.pick(3, 12))):
-        check_filters_on(ctx, out, model.search(xt), label, state, {"list": "search", "type": xt}, fcases)
+        on(model.search(xt), {"list": "search", "type": xt})
     sel = rng.sample(xts, min(len(xts), 3))
-    check_filters_on(ctx, out, model.search(*sel), label, state, {"list": "search", "types": sel}, fcases)
+    on(model.search(*sel), {"list": "search", "types": sel})
     # relation values
     objs = [o for o in full if type(o).__name__ != "Diagram"]
     done = 0
@@ -751,7 +787,7 @@ def check_filters(ctx: Ctx, out: Outcome, model, label: str, state: str, fcases:
             except Exception:  # noqa: BLE001
                 continue
             if isinstance(v, ElementList) and len(v) >= 2:
-                check_filters_on(ctx, out, v, label, state, {"list": "attr", "of": o.uuid, "attr": a}, fcases)
+                on(v, {"list": "attr", "of": o.uuid, "attr": a})
                 done += 1
         if done >= ctx.pick(12, 120):
             break
@@ -785,57 +821,160 @@ def check_filters(ctx: Ctx, out: Outcome, model, label: str, state: str, fcases:
 # ------------------------------------------------------------------ D. a few random edits through the API
 
 
-def random_edits(ctx: Ctx, out: Outcome, model) -> int:
-    """Creates, deletes and link edits through the public API; failures of individual edits are skipped."""
-    from capellambse.model import ElementList, _descriptors as D
+EDIT_KINDS = ("create", "child-delete", "child-assign", "attr-append", "attr-remove", "attr-del", "attr-assign",
+              "link-remove", "link-del", "link-assign", "roletag-replace", "roletag-del")
 
-    rng = ctx.rng
-    done = 0
-    objs = [o for o in model.search() if type(o).__name__ != "Diagram" and getattr(o, "uuid", None)]
-    rng.shuffle(objs)
-    want = ctx.pick(8, 25)
+
+def edit_candidates(model, objs: list) -> dict:
+    """Every (object, relation) an edit of each kind can be applied to, found by reflection on the accessor table."""
+    from capellambse.model import ElementList, _descriptors as D
+    from capellambse.model import _obj
+
+    cands: dict = {k: [] for k in EDIT_KINDS}
     for o in objs:
-        if done >= want:
-            break
         cls = type(o)
-        names = [n for n in dir(cls) if not n.startswith("_")]
-        rng.shuffle(names)
-        for n in names[:6]:
-            acc = getattr(cls, n, None)
-            try:
-                if isinstance(acc, D.DirectProxyAccessor) and acc.aslist is not None and len(acc.xtypes) == 1 and rng.random() < 0.5:
-                    lst = getattr(o, n)
-                    lst.create(name=f"verif-{done}")
-                    out.hit("edit:create")
-                    done += 1
-                    break
-                if isinstance(acc, D.AttrProxyAccessor) and acc.aslist is not None and type(acc) is D.AttrProxyAccessor:
-                    lst = getattr(o, n)
-                    donors = [p for p in objs[:300] if type(p) is cls and p is not o and len(getattr(p, n)) > 0]
-                    if donors and isinstance(lst, ElementList):
-                        t_ = getattr(rng.choice(donors), n)[0]
-                        if t_ not in lst:
-                            lst.append(t_)
-                            out.hit("edit:link-append")
-                            done += 1
-                            break
-                    if len(lst) > 0 and rng.random() < 0.3:
-                        del lst[rng.randrange(len(lst))]
-                        out.hit("edit:link-remove")
-                        done += 1
-                        break
-                if isinstance(acc, D.DirectProxyAccessor) and acc.aslist is not None and rng.random() < 0.15:
-                    lst = getattr(o, n)
-                    leafs = [i for i, c in enumerate(lst) if len(c._element) == 0]
-                    if leafs:
-                        del lst[rng.choice(leafs)]
-                        out.hit("edit:delete")
-                        done += 1
-                        break
-            except Exception:  # noqa: BLE001
-                out.hit("edit:refused")
+        for n in dir(cls):
+            if n.startswith("_"):
                 continue
-    return done
+            acc = getattr(cls, n, None)
+            if not isinstance(acc, D.Accessor):
+                continue
+            t_ = type(acc)
+            try:
+                if t_ is D.DirectProxyAccessor:
+                    if acc.aslist is None or getattr(acc, "follow_abstract", False):
+                        continue
+                    if len(acc.xtypes) == 1 and not acc.rootelem:
+                        cands["create"].append((o, n))
+                    v = getattr(o, n)
+                    if isinstance(v, ElementList) and len(v) and not acc.rootelem:
+                        if any(len(c._element) == 0 for c in v):
+                            cands["child-delete"].append((o, n))
+                        if len(v) >= 2:
+                            cands["child-assign"].append((o, n))
+                elif t_ is D.AttrProxyAccessor:
+                    v = getattr(o, n)
+                    if acc.aslist is not None and isinstance(v, ElementList):
+                        cands["attr-append"].append((o, n))
+                        if len(v):
+                            cands["attr-remove"].append((o, n))
+                            cands["attr-assign"].append((o, n))
+                    if acc.attr in o._element.attrib:
+                        cands["attr-del"].append((o, n))
+                elif t_ is D.LinkAccessor:
+                    v = getattr(o, n)
+                    n_el = len(v) if isinstance(v, ElementList) else (1 if isinstance(v, _obj.ModelElement) else 0)
+                    if n_el and acc.tag:
+                        cands["link-del"].append((o, n))
+                        cands["link-assign"].append((o, n))
+                        if isinstance(v, ElementList):
+                            cands["link-remove"].append((o, n))
+                elif t_ is D.RoleTagAccessor:
+                    v = getattr(o, n)
+                    if acc.aslist is None and v is not None:
+                        cands["roletag-del"].append((o, n))
+                        if len(acc.classes) >= 2:
+                            cands["roletag-replace"].append((o, n))
+                    elif acc.aslist is not None and isinstance(v, ElementList) and len(v):
+                        cands["child-delete"].append((o, n))
+            except Exception:  # noqa: BLE001  (a relation that cannot be read is not edited)
+                continue
+    return cands
+
+
+def apply_edit(kind: str, o, n: str, rng, objs: list, serial: int) -> bool:
+    from capellambse.model import NewObject
+
+    cls = type(o)
+    acc = getattr(cls, n)
+    if kind == "create":
+        getattr(o, n).create(name=f"verif-{serial}")
+    elif kind == "child-delete":
+        lst = getattr(o, n)
+        leafs = [i for i, c in enumerate(lst) if len(c._element) == 0] or list(range(len(lst)))
+        del lst[rng.choice(leafs)]
+    elif kind == "child-assign":
+        vals = list(getattr(o, n))
+        drop = rng.randrange(len(vals))
+        setattr(o, n, [v for i, v in enumerate(vals) if i != drop])
+    elif kind == "attr-append":
+        lst = getattr(o, n)
+        donors = [p for p in objs if type(p) is cls and p is not o and len(getattr(p, n)) > 0]
+        if not donors:
+            return False
+        t_ = getattr(rng.choice(donors), n)[0]
+        if t_ in lst:
+            return False
+        lst.append(t_)
+    elif kind == "attr-remove":
+        lst = getattr(o, n)
+        del lst[rng.randrange(len(lst))]
+    elif kind == "attr-del":
+        delattr(o, n)
+    elif kind == "attr-assign":
+        vals = list(getattr(o, n))
+        setattr(o, n, list(reversed(vals))[: max(1, len(vals) - 1)])
+    elif kind == "link-remove":
+        lst = getattr(o, n)
+        del lst[rng.randrange(len(lst))]
+    elif kind == "link-del":
+        delattr(o, n)
+    elif kind == "link-assign":
+        v = getattr(o, n)
+        if acc.aslist is None:
+            setattr(o, n, v)
+        else:
+            vals = list(v)
+            setattr(o, n, list(reversed(vals))[: max(1, len(vals) - 1)])
+    elif kind == "roletag-replace":
+        cur = getattr(o, n)
+        others = [c for c in acc.classes if c is not type(cur)]
+        if not others:
+            return False
+        setattr(o, n, NewObject(rng.choice(others).__name__))
+    elif kind == "roletag-del":
+        delattr(o, n)
+    else:
+        return False
+    return True
+
+
+def random_edits(ctx: Ctx, out: Outcome, model) -> int:
+    """An edit history through the public API with a quota per kind: creation and deletion of children,
+    assignment / deletion / element removal on containment, attribute-link (AttrProxy), link-element (LinkAccessor)
+    and role-tag relations. Individual edits the API refuses are skipped."""
+    rng = ctx.rng
+    objs = [o for o in model.search() if type(o).__name__ != "Diagram" and getattr(o, "uuid", None)]
+    if len(objs) > 400:
+        objs = rng.sample(objs, 400)
+    cands = edit_candidates(model, objs)
+    quota = ctx.pick(2, 5)
+    plan = []
+    for k in EDIT_KINDS:
+        c = cands[k]
+        for pick in (rng.sample(c, min(len(c), quota * 2)) if c else []):
+            plan.append((k, pick))
+    rng.shuffle(plan)
+    done: dict = {k: 0 for k in EDIT_KINDS}
+    total = 0
+    for k, (o, n) in plan:
+        if done[k] >= quota:
+            continue
+        if o._element.getparent() is None and o._element is not model.project._element:
+            continue  # removed by an earlier edit
+        try:
+            ok = apply_edit(k, o, n, rng, objs, total)
+        except Exception:  # noqa: BLE001
+            out.hit("edit-refused:" + k)
+            continue
+        if ok:
+            done[k] += 1
+            total += 1
+            out.hit("edit:" + k)
+    out.extra.setdefault("edit_candidates", {})
+    for k in EDIT_KINDS:
+        out.extra["edit_candidates"][k] = out.extra["edit_candidates"].get(k, 0) + len(cands[k])
+    return total
 
 
 # ------------------------------------------------------------------ exports for the Lean model
@@ -880,7 +1019,8 @@ def export_search(model, keep: list) -> dict:
             continue
         cache = f._ModelFile__xtypecache
         for xt, d in cache.items():
-            index.append([xt, [pos[id(e)] for e in d.values() if id(e) in pos]])
+            # an indexed element that is in no tree any more (orphan) is exported as a node number that does not exist
+            index.append([xt, [pos.get(id(e), ORPHAN) for e in d.values()]])
     return {"nodes": nodes, "index": index, "pos": pos}
 
 
@@ -893,6 +1033,9 @@ def search_requests(ctx: Ctx, model, keep: list) -> tuple[list[dict], list]:
     handlers = sorted(_xtype.XTYPE_HANDLERS[None])
     present = sorted({n["xt"] for n in ex["nodes"] if n["xt"] and n["sem"]})
     anchors = [e for e in sem_elements(model) if len(e) and e.get("id")]
+    dl = descriptors(model)
+    keep.append(dl)
+    desc_ids = {id(e) for e in dl}
     qs, impl = [], []
     for _ in range(ctx.pick(25, 120)):
         kind = rng.choice(["full", "short", "multi", "all", "generic"])
@@ -914,7 +1057,7 @@ def search_requests(ctx: Ctx, model, keep: list) -> tuple[list[dict], list]:
         b = rng.choice(anchors) if anchors and rng.random() < 0.5 else None
         try:
             res = model.search(*args, below=model.by_uuid(b.get("id")) if b is not None else None)
-            got = [pos[id(e)] for e in res._elements if id(e) in pos and (not strip or model._loader.find_fragment(e).suffix != ".aird")]
+            got = [pos.get(id(e), ORPHAN) for e in res._elements if not (strip and id(e) in desc_ids)]
             iv = {"ok": got}
         except ValueError:
             iv = {"err": "ValueError"}
@@ -1025,10 +1168,11 @@ class ModelCtx:
 
 def run_model_state(ctx: Ctx, out: Outcome, model, label: str, state: str, fcases: list, reqs: list) -> None:
     keep: list = []  # keeps lxml proxies alive so that id() stays meaningful
-    check_search(ctx, out, model, label, state, keep)
-    check_references(ctx, out, model, label, state, keep)
-    check_children(ctx, out, model, label, state)
-    check_filters(ctx, out, model, label, state, fcases)
+    rep = {"model": label, "state": state}
+    guarded(out, "search", dict(rep, kind="guard"), check_search, ctx, out, model, label, state, keep)
+    guarded(out, "references", dict(rep, kind="guard"), check_references, ctx, out, model, label, state, keep)
+    guarded(out, "children", dict(rep, kind="guard"), check_children, ctx, out, model, label, state)
+    guarded(out, "filters", dict(rep, kind="guard"), check_filters, ctx, out, model, label, state, fcases)
     if os.environ.get("VERIF_NO_MODEL") != "1":
         rq, impl = search_requests(ctx, model, keep)
         reqs.append(("search", label, state, rq[0], impl))
@@ -1132,7 +1276,7 @@ def replay(ctx: Ctx, case: dict):
     base.setup(ctx)
     label = case.get("model")
     kind = case.get("kind")
-    if case.get("state") == "edited":
+    if case.get("state") in ("edited", "fragmented") or kind in ("guard", "filter-guard"):
         # the edited state is a function of (seed, tier, model): re-run that model only
         ctx2 = Ctx(ctx.prop, case.get("tier", ctx.tier), int(case.get("seed", ctx.seed)))
         ctx2._scratch = ctx.scratch
@@ -1148,7 +1292,7 @@ def replay(ctx: Ctx, case: dict):
             else:
                 os.environ["VERIF_NO_MODEL"] = old_nm
         for f in o.findings:
-            if f.replay.get("kind") == kind and f.replay.get("state") == "edited" and \
+            if f.replay.get("kind") == kind and f.replay.get("state") == case.get("state") and \
                     all(f.replay.get(k) == case.get(k) for k in ("y", "attr") if k in case):
                 return f.what
         return None
